@@ -83,6 +83,26 @@ theorem bounds_below_star :
     seconds.max ≤ 62 ∧ minutes.max ≤ 62 ∧ hours.max ≤ 62 ∧ dom.max ≤ 62 ∧ months.max ≤ 62 ∧
       dow.max ≤ 62 := by decide
 
+/-- The generated bounds and names are the ones doc.go documents ("CRON Expression Format":
+minutes 0-59, hours 0-23, day of month 1-31, month 1-12 or JAN-DEC, day of week 0-6 or SUN-SAT;
+seconds 0-59 for the optional first field). -/
+theorem bounds_documented :
+    seconds = ⟨0, 59, []⟩ ∧ minutes = ⟨0, 59, []⟩ ∧ hours = ⟨0, 23, []⟩ ∧ dom = ⟨1, 31, []⟩ ∧
+    months = ⟨1, 12, [("jan".toList, 1), ("feb".toList, 2), ("mar".toList, 3), ("apr".toList, 4),
+      ("may".toList, 5), ("jun".toList, 6), ("jul".toList, 7), ("aug".toList, 8), ("sep".toList, 9),
+      ("oct".toList, 10), ("nov".toList, 11), ("dec".toList, 12)]⟩ ∧
+    dow = ⟨0, 6, [("sun".toList, 0), ("mon".toList, 1), ("tue".toList, 2), ("wed".toList, 3),
+      ("thu".toList, 4), ("fri".toList, 5), ("sat".toList, 6)]⟩ ∧
+    starBit = (1 : BitVec 64) <<< Gen.starBitShift ∧ Gen.starBitShift = 63 := by decide
+
+/-- Names are matched case-insensitively (doc.go: "SUN", "Sun", and "sun" are equally accepted). -/
+theorem names_case_insensitive (b : Bounds) (a a' : List Char) (n : Nat)
+    (h : toLower a = toLower a') (hn : nameLookup b.names (toLower a) = some n) :
+    Atom b a n ∧ Atom b a' n := ⟨Or.inl hn, Or.inl (h ▸ hn)⟩
+
+example : toLower "SUN".toList = toLower "sun".toList ∧ toLower "Sun".toList = "sun".toList := by
+  decide
+
 -- non-vacuity: a list with a range, a step and a name
 example : getField months "jan-MAR/2,Dec,5".toList = .ok 0x102a := by decide
 example : getField dow "*/2,?".toList = .ok 0x800000000000007f := by decide
